@@ -1,5 +1,5 @@
 """C03 -- minimise/maximise return a feasible optimum, or nothing exactly when infeasible (structural clauses)."""
-from ..rules import branching, model, optimize, process, dispatch
+from ..rules import branching, model, optimize, process, dispatch, search
 
 EXPLANATION = (
     "Static analysis of branch-and-bound by restart: in optimize and optimize_and_queue every improving iteration does solve -> reset(this solver's stacks) -> tighten(stack, top, dom_indices, dom_offsets, variable_idx, incumbent[variable_idx]); an exit edge after the tightening reads both bounds of the objective's shared domain (emptiness guard); the incumbent is recorded / queued and the last one returned; minimize<->decrease_max and maximize<->increase_min; decrease_max stores value-1-offset into (dom_indices[var], MAX), increase_min value+1-offset into (.., MIN); reset = cp_init from the problem's initial domains + full re-trigger; is_solved over all domains. Not optimality as a value. Also: the multiprocessing reducer keeps the best with the comparison that matches the direction; cp_init (what a restart re-establishes) resets top, domains and the enabled flags. Round 3: a maybe-None optimisation result is tested against None before it is subscripted. Round 4: no solver code stores into the problem object (an objective bound left in the model makes the next optimisation of the same problem return None)."
@@ -19,3 +19,4 @@ def check(ctx, prog):
     process.rule_liveness(ctx, prog)  # scope: the distributed optimisation does not join a worker that may still be writing
     model.rule_problem_readonly(ctx, prog)  # an optimisation leaves the model as it found it
     dispatch.rule_status_used(ctx, prog)  # the verdict of a consistency algorithm / filtering function is never dropped
+    search.rule_solve_one(ctx, prog, want=("R-CAPACITY",))  # an overflow in a worker's optimisation is not answered as 'no better solution'
